@@ -210,12 +210,17 @@ def analyse(ctx, R, kind, required_tab, known_gap_keys=()):
                 # negative guards: fact written while a source is known to be absent
                 absent = set()
                 for f in conds:
-                    s = fact_str(f).replace(" ", "")
-                    m = re.fullmatch(r"(.*)\.is_none\(\)", s)
-                    if m and not s.startswith("!"):
-                        for src in sources_in(f[1], getter):
+                    if f[0] != "if":
+                        continue
+                    e = f[1]
+                    if e["k"] == "MethodCall" and not e["args"] and ((e["method"] == "is_none" and f[2]) or (e["method"] == "is_some" and not f[2])):
+                        for src in sources_in(e, getter):
                             absent.add(src)
-                wkey = "%s/write%d" % (key, wi + 1) if len(ws) > 1 else key
+                if len(ws) > 1:
+                    sig = ",".join(sorted("%s(%s)" % x for x in support)) or "-"
+                    wkey = "%s/write{%s}" % (key, sig)
+                else:
+                    wkey = key
                 for rk, field in req:
                     b = fb.get(field, field)
                     okk = False
